@@ -73,7 +73,8 @@ func TestVerifC14Classification(t *testing.T) {
 		}
 		n.Notify(ev)
 		// a retried event gets further attempts within microseconds (1ns retry delay); give it a moment
-		deadline := time.Now().Add(300 * time.Millisecond)
+		// settled = called at least 3 times (retried), or called once and the job is gone (done) / marked failed (fatal)
+		deadline := time.Now().Add(5 * time.Second)
 		for time.Now().Before(deadline) {
 			mu.Lock()
 			k := calls
@@ -81,17 +82,28 @@ func TestVerifC14Classification(t *testing.T) {
 			if k >= 3 {
 				break
 			}
+			settled := false
+			_ = db.ReadShelf(context.Background(), "_vcr_vcs_jobs", func(r stoabs.Reader) error {
+				v, err := r.Get(stoabs.BytesKey(tx.Ref().Slice()))
+				settled = err != nil || strings.Contains(string(v), `"retries":21`)
+				return nil
+			})
+			if settled && k >= 1 {
+				time.Sleep(20 * time.Millisecond) // a wrongly retried event would show further calls now
+				break
+			}
 			time.Sleep(time.Millisecond)
 		}
+		// observe BEFORE Close(): cancelling the notifier's context while its retry goroutine is acquiring the store lock can
+		// leave go-stoabs' lock unusable for the configured lock timeout (seen here as "unable to obtain BBolt read lock")
 		failed, _ := n.GetFailedEvents()
-		_ = n.Close()
-		time.Sleep(2 * time.Millisecond)
 		onShelf := false
 		_ = db.ReadShelf(context.Background(), "_vcr_vcs_jobs", func(r stoabs.Reader) error {
 			_, err := r.Get(stoabs.BytesKey(tx.Ref().Slice()))
 			onShelf = err == nil
 			return nil
 		})
+		_ = n.Close()
 		mu.Lock()
 		retries := -1
 		if len(failed) == 1 {
